@@ -27,6 +27,7 @@ type Ident struct {
 type Alloc struct {
 	IP, Key      string
 	Step         int
+	ConfLB       int // configuration version in force (lower bound) when the allocation was made
 	Creator      *core.Task
 	PodGoneSince bool // latched: the identity's pod was absent or finished at some instant since Step
 	AppGoneSince bool // latched: the owning workload did not exist at some instant since Step
@@ -184,7 +185,7 @@ func (w *World) appOfPrefix(key string) *App {
 
 // newAlloc starts an epoch for ip under key.
 func (w *World) newAlloc(ip, key string, by *core.Task, reserved bool) *Alloc {
-	al := &Alloc{IP: ip, Key: key, Step: w.S.Steps, Creator: by, MinReplicas: 1 << 30, Reserved: reserved}
+	al := &Alloc{IP: ip, Key: key, Step: w.S.Steps, Creator: by, MinReplicas: 1 << 30, Reserved: reserved, ConfLB: w.memVer}
 	if id := w.M.idents[key]; id != nil {
 		al.PodGoneSince = w.livePodWithKey(key) == nil
 		al.AppGoneSince = !w.appExists(id.App)
@@ -233,8 +234,8 @@ func (w *World) storeIPsOfKey(key string) []string {
 
 // releaseJustified answers "may this IP be released now?" for a Delete issued by galaxy-ipam.
 func (w *World) releaseJustified(al *Alloc, by *core.Task) (bool, string) {
-	if !w.inNewestConf(al.IP) {
-		return true, "not configured any more"
+	if !w.confSince(al.IP, al.ConfLB) {
+		return true, "not configured any more (or taken out of the configuration since it was allocated)"
 	}
 	if w.M.adminRel[al.IP+"|"+al.Key] {
 		return true, "administrator asked for it"
